@@ -32,7 +32,7 @@ ProcRecs  == ToSet(Inst.procs)
 PNames    == {p.name : p \in ProcRecs}
 PRTab     == [n \in PNames |-> CHOOSE p \in ProcRecs : p.name = n]
 PR(n)     == PRTab[n]
-IsCmd(n)  == PR(n).kind \in {"cmd", "gofunc"}
+IsCmd(n)  == PR(n).kind \in {"cmd", "gofunc", "gofunc_ipwrite"}
 FileEdges  == ToSet(Inst.edges)      \* [from, to, fp, tp]
 ParamEdges == ToSet(Inst.pedges)
 AllEdges   == FileEdges \cup ParamEdges
